@@ -4,7 +4,7 @@
 //
 //   huff <n> r1..rn      GNode::AddEvent x n, InitEscapeRate, MakeHuffTree; prints
 //                        "esc <escape rate>" and "thr <node thresholds in htree order>"
-//   new | hop <r> | decay <r> | init | make
+//   new | hop <r> | decay <r> | init | make | sit
 //                        call histories on ONE GNode: fresh node, GNode::AddEvent,
 //                        GNode::AddDecayEvent, InitEscapeRate (prints "esc"), MakeHuffTree
 //                        (prints "thr" and the tree's own normalisation "sov")
@@ -220,6 +220,7 @@ int main() {
   std::unique_ptr<Topology> top;
   std::unique_ptr<KmcProbe> gk;
   std::unique_ptr<Chargecarrier> walker;
+  std::unique_ptr<Chargecarrier> hcar;  // carrier sitting on the history node
   while (std::getline(std::cin, line)) {
     ++seq;
     std::istringstream in(line);
@@ -247,6 +248,10 @@ int main() {
       } else if (cmd == "new") {
         node.reset(new GNode(seg0, QMStateType(QMStateType::Electron), true));
         dests.assign(1, GNode(seg0, QMStateType(QMStateType::Electron), true));
+        hcar.reset(new Chargecarrier(0));
+        std::cout << "ok" << std::endl;
+      } else if (cmd == "sit") {
+        hcar->settoNote(node.get());
         std::cout << "ok" << std::endl;
       } else if (cmd == "hop" || cmd == "decay") {
         double r;
@@ -260,14 +265,15 @@ int main() {
         std::cout << "ok " << node->Events().size() << std::endl;
       } else if (cmd == "init") {
         node->InitEscapeRate();
-        std::cout << "esc " << node->getEscapeRate() << std::endl;
+        std::cout << "esc " << node->getEscapeRate() << " car "
+                  << (hcar && hcar->hasNode() ? hcar->getCurrentEscapeRate() : -1.0) << std::endl;
       } else if (cmd == "make") {
         node->MakeHuffTree();
         std::cout << "thr";
         for (const auto& hn : node->hTree.htree) std::cout << " " << hn.probability;
         std::cout << std::endl;
-        std::cout << "sov " << node->hTree.sum_of_values << " esc " << node->getEscapeRate()
-                  << std::endl;
+        std::cout << "sov " << node->hTree.sum_of_values << " esc " << node->getEscapeRate() << " car "
+                  << (hcar && hcar->hasNode() ? hcar->getCurrentEscapeRate() : -1.0) << std::endl;
       } else if (cmd == "probe") {
         long m;
         in >> m;
